@@ -56,11 +56,11 @@ def run(ctx):
             if rec['file'].startswith('src/'):
                 nt += trunc.check(ctx, Fn(rec))
     ctx.instance('R-TRUNC.decoders', nt)
-    ctx.floor('R-TRUNC.decoders', 8)
+    ctx.floor('R-TRUNC.decoders', 5)
     ctx.floor("entries", 150)
     ctx.floor("closure_fns", 180)
     ctx.floor("untrusted_sinks", 35)
-    ctx.floor("R-DIV.sites", 4)
+    ctx.floor("R-DIV.sites", 2)
     ctx.extra["entry_points"] = len(entries)
     ctx.extra["entry_sample"] = entries[:25]
     ctx.extra["untrusted_struct_fields"] = {"bytes": sorted(cl.summ.reg_buf)[:40], "integers": sorted(cl.summ.reg_scalar)[:60]}
